@@ -75,9 +75,24 @@ class Prov:
         """Term describing *one element* produced by iterating `it` (a ('tuple', [..]) for pair-producing iterables)."""
         if depth > 6:
             return ("opaque", "deep")
+        if isinstance(it, (ast.GeneratorExp, ast.ListComp)) and len(it.generators) == 1:
+            # ((k, v) for k, v in X.items() if cond): a filtered view; what one element is follows from the comprehension's own target
+            g = it.generators[0]
+            env2 = dict(env)
+            self._bind(g.target, self.iter_terms(g.iter, env, depth + 1), env2)
+            if isinstance(it.elt, ast.Tuple):
+                return ("tuple", [self.term(e, env2, depth + 1) for e in it.elt.elts])
+            return self.term(it.elt, env2, depth + 1)
         if isinstance(it, ast.Call):
             fn = it.func
             name = fn.id if isinstance(fn, ast.Name) else None
+            if name == "enumerate" and it.args and isinstance(it.args[0], ast.Call) and isinstance(it.args[0].func, ast.Name) \
+                    and it.args[0].func.id == "zip" and len(it.args) == 1 and not it.keywords and it.args[0].args:
+                # enumerate(zip(A, B)): (running position, (A[pos], B[pos]))
+                zargs = it.args[0].args
+                X0 = self.term(zargs[0], env, depth + 1)
+                idx = ("idx", X0)
+                return ("tuple", [idx, ("tuple", [("elem", self.term(a, env, depth + 1), idx) for a in zargs])])
             if name == "enumerate" and it.args:
                 inner = it.args[0]
                 start = next((k.value for k in it.keywords if k.arg == "start"), it.args[1] if len(it.args) > 1 else None)
@@ -278,6 +293,9 @@ class Prov:
             if len(vals) > 1 and all(isinstance(v, ast.Constant) for v in vals):
                 # a local that only ever holds constants (branch = "then" / branch = "else"): one term for the local
                 return ("constlocal", e.id, tuple(sorted(str(v.value) for v in vals)))
+            if len(vals) == 1 and isinstance(vals[0], ast.IfExp) and all(isinstance(x, ast.Constant) for x in (vals[0].body, vals[0].orelse)):
+                # branch = "then" if <cond> else "else": a local that holds one of two constants
+                return ("constlocal", e.id, tuple(sorted(str(x.value) for x in (vals[0].body, vals[0].orelse))))
             if len(vals) == 1:
                 v = vals[0]
                 if isinstance(v, tuple) and v[0] == "unpack":
